@@ -76,14 +76,14 @@ def opsExpr : List (String × Handler) := [
     let (_, fs, inits, t, num) ← pOdeProblem
     pure (showCoeffs (Jet.jvpVariantAug fs inits t num))),
   ("jet_doubling", do
-    let (d, fs, inits, t, num) ← pOdeProblem
+    let (_, fs, inits, t, num) ← pOdeProblem
     match inits with
-    | [u0] => pure (showCoeffs (Jet.doubling fs d u0 t num))
+    | [u0] => pure (showCoeffs (Jet.doubling fs u0 t num))
     | _ => throw "doubling: first-order ODEs only"),
   ("jet_doubling_aug", do
-    let (d, fs, inits, t, num) ← pOdeProblem
+    let (_, fs, inits, t, num) ← pOdeProblem
     match inits with
-    | [u0] => pure (showCoeffs (Jet.doublingAug fs d u0 t num))
+    | [u0] => pure (showCoeffs (Jet.doublingAug fs u0 t num))
     | _ => throw "doubling: first-order ODEs only")
 ]
 
